@@ -7,6 +7,8 @@ fn write_element(
         self.write_comments(w, 1, &f.comments)?;
 
         let ty = match f.type_override(SupportedLanguage::Scala) {
+            // An override replaces the translated type, not the fact that the field is optional.
+            Some(type_override) if f.ty.is_optional() => format!("Option[{}]", type_override),
             Some(type_override) => type_override.to_owned(),
             None => self
                 .format_type(&f.ty, generic_types)
